@@ -187,7 +187,7 @@ def run(ctx):
         ym = np.moveaxis(y, axis, 0)
         mx = float(np.max(np.abs(xm))) + 1e-300
         single = dt in (np.float32, np.float16)
-        tol = (1e-5 if single else 1e-12 * np.log2(N)) * mx
+        tol = (1e-5 if single else 1e-9) * mx      # double: any-length (Bluestein) FFT rounding, far above; the point is the single path
         e = float(np.max(np.abs(ym.astype(np.complex128) - fft_oracle(xm))))
         ctx.ratio(e, tol)
         if e > tol:
